@@ -1,43 +1,45 @@
 package sam
 
 import (
-	"encoding/csv"
+	"bufio"
 	"io"
 	"iter"
 	"strings"
 
 	"github.com/fluhus/gostuff/aio"
-	"github.com/fluhus/gostuff/iterx"
 )
 
 // ReaderHeader iterates over SAM or header entries in a reader.
 func ReaderHeader(r io.Reader) iter.Seq2[SAMOrHeader, error] {
 	return func(yield func(SAMOrHeader, error) bool) {
-		csvReader := iterx.CSVReader(r, func(r *csv.Reader) {
-			r.Comma = '\t'
-			r.FieldsPerRecord = -1 // Allow variable number of fields.
-			r.LazyQuotes = true
-		})
-		for line, err := range csvReader {
-			// Error case.
-			if err != nil {
-				if !yield(SAMOrHeader{}, err) {
-					break
-				}
-				continue
+		// SAM has no quoting: lines are split on tabs as they are.
+		br := bufio.NewReader(r)
+		for {
+			text, rerr := br.ReadString('\n')
+			if rerr != nil && rerr != io.EOF {
+				// A failed read is reported and ends the iteration.
+				// A partially read line is not parsed.
+				yield(SAMOrHeader{}, rerr)
+				return
 			}
-			// Header line case.
-			if len(line) > 0 && strings.HasPrefix(line[0], "@") {
-				h := strings.Join(line, "\t")
-				if !yield(SAMOrHeader{H: &h}, nil) {
-					break
+			text = strings.TrimSuffix(text, "\n")
+			text = strings.TrimSuffix(text, "\r")
+			if text != "" { // Empty lines are skipped.
+				if strings.HasPrefix(text, "@") {
+					// Header line case.
+					if !yield(SAMOrHeader{H: &text}, nil) {
+						return
+					}
+				} else {
+					// SAM line case.
+					s, err := parseLine(strings.Split(text, "\t"))
+					if !yield(SAMOrHeader{S: s}, err) {
+						return
+					}
 				}
-				continue
 			}
-			// SAM line case.
-			s, err := parseLine(line)
-			if !yield(SAMOrHeader{S: s}, err) {
-				break
+			if rerr == io.EOF {
+				return
 			}
 		}
 	}
